@@ -76,7 +76,9 @@ def check(facts, rep, tier, cfg):
     rules_c10.check(facts, sub, tier, cfg)
     rep.paths += sub.paths
     cells = ("cell/Finish/BindRequested", "cell/Reset/BindRequested", "cell/Acknowledge/BindRequested", "cell/Bind/disabled",
-             "cell/Bind/enabled", "cell/Bind/winding-down")
+             "cell/Bind/enabled", "cell/Bind/winding-down",
+             # stream and bind operations share one id space: a Connect on an id with a pending bind must not replace the slot
+             "cell/Connect/in-use", "cell/Push/BindRequested")
     rep.rule("C15.R2", "responder: Bind rows of the reaction table; BindRequest carries the frame's id and payload")
     for i in sub.instances:
         if i["key"] in cells:
